@@ -280,6 +280,9 @@ func genC03(r *rng, n int, tier string, emit func(string, ...string)) {
 		emit("dec", strconv.Itoa(e), hxs(s))
 		stat("codec", fmt.Sprintf("enc%d", e))
 	}
+	// record level: parser and builder with generator-known truth about the declared values
+	genUnmarshalCases(r, n/2, emit, genRopts)
+	genC02(r, n/2, tier, emit)
 	for i := 0; i < n/8; i++ {
 		ln := pick(r, []int{0, 1, 54, 55, 56, 57, 63, 64, 65, 110, 111, 112, 113, 119, 120, 127, 128, 129, 200})
 		if r.chance(1, 2) {
